@@ -28,10 +28,36 @@ pub fn hash_case(out: &mut Out, p: &Pos, prefix: &str, depths: &[u8]) {
   let valid = p.lat >= -PI / 2.0 && p.lat <= PI / 2.0;
   let inp = |d: u8| format!("depth={} lon={:e} ({}) lat={:e} ({}) class={}", d, p.lon, fbits(p.lon), p.lat, fbits(p.lat), p.class);
   let mut results: Vec<(u8, Option<u64>)> = Vec::with_capacity(depths.len());
+  let lon2 = f64::from_bits(p.lon.to_bits() ^ (1u64 << 63));
+  let mut results2: Vec<(u8, Option<u64>)> = Vec::new();
+  if prefix == "C02" {
+    if let Some(&d0) = depths.first() {
+      let r2 = catch(|| get_or_create(d0).hash(lon2, p.lat));
+      out.rec(&format!("hash {} {} {}", d0, fbits(lon2), fbits(p.lat)), &opt_u64(r2));
+      results2.push((d0, r2));
+      // an unrelated position in between, so that whatever the previous call may have left behind is replaced
+      let r3 = catch(|| get_or_create(d0).hash(1.0, 0.3));
+      out.rec(&format!("hash {} {} {}", d0, fbits(1.0), fbits(0.3)), &opt_u64(r3));
+    }
+  }
   for &d in depths {
+    // `hash` is a function of its arguments: between two depths of the same position, the position with the sign bit of
+    // its longitude flipped is hashed too (for lon = +-0.0 the two are equal as numbers but are different positions in
+    // the polar caps); any state kept from one call to the next would show as a wrong answer or a changed answer
+    if prefix == "C02" && d % 2 == 1 {
+      let r2 = catch(|| get_or_create(d).hash(lon2, p.lat));
+      out.rec(&format!("hash {} {} {}", d, fbits(lon2), fbits(p.lat)), &opt_u64(r2));
+      results2.push((d, r2));
+    }
     let r = catch(|| get_or_create(d).hash(p.lon, p.lat));
     out.rec(&format!("hash {} {} {}", d, fbits(p.lon), fbits(p.lat)), &opt_u64(r));
     results.push((d, r));
+  }
+  if prefix == "C02" {
+    if let Some(&(d0, r0)) = results.first() {
+      let again = catch(|| get_or_create(d0).hash(p.lon, p.lat));
+      if again != r0 { out.violation("C02:not-a-function-of-its-arguments", format!("depth={} lon={:e} ({}) lat={:e} ({}) class={}", d0, p.lon, fbits(p.lon), p.lat, fbits(p.lat), p.class), format!("{:?} (first evaluation)", r0), format!("{:?} (after hashing the same and the sign-flipped position at the other depths)", again)); }
+    }
   }
   out.evaluations += 1;
   out.stat(&format!("{}:{}", prefix, p.class));
@@ -50,6 +76,18 @@ pub fn hash_case(out: &mut Out, p: &Pos, prefix: &str, depths: &[u8]) {
           let tol = 1e-9 + (1u64 << *d) as f64 * 2e-14 * (1.0 + p.lon.abs());
           let (ok, ex) = in_cell(*d, *h, xr, yr, tol);
           if !ok { out.violation("C01:not-in-cell", inp(*d), format!("point within {:e} cell units of cell {}", tol, h), format!("{:e} cell units outside", ex)); }
+        }
+      }
+    }
+  }
+  if prefix == "C02" && valid {
+    // the same relation along the chain of the sign-flipped position (evaluated first at the shallowest depth, then
+    // interleaved with the position itself)
+    for w in results2.windows(2) {
+      if let ((d1, Some(h1)), (d2, Some(h2))) = (w[0], w[1]) {
+        if h2 >> (2 * (d2 - d1) as u32) != h1 {
+          out.violation("C02:not-ancestor", format!("depth={} lon={:e} ({}) lat={:e} ({}) class={} (evaluated between calls for the longitude of opposite sign) vs depth {}", d1, lon2, fbits(lon2), p.lat, fbits(p.lat), p.class, d2), format!("{} >> {} = {}", h2, 2 * (d2 - d1), h2 >> (2 * (d2 - d1) as u32)), h1.to_string());
+          break;
         }
       }
     }
